@@ -6,7 +6,7 @@ import hashlib
 import hmac as std_hmac
 import struct
 
-from .common import Suite, errname, hx, merge
+from .common import Oracle, Suite, errname, hx, merge
 
 GEN_UNITS = ["Totp", "PyUnicode", "B64"]
 LEAN_TARGETS = ["PasslibVerif.Props.C13"]
@@ -36,6 +36,59 @@ def days_from_civil(y, m, d):
     doy = (153 * (m + (-3 if m > 2 else 9)) + 2) // 5 + d - 1
     doe = yoe * 365 + yoe // 4 - yoe // 100 + doy
     return era * 146097 + doe - 719468
+
+
+def _time_forms(rng, ts):
+    """the same instant as int, float, naive UTC datetime and aware datetimes in assorted zones"""
+    forms = [("int", ts), ("float", ts + rng.choice([0.0, 0.25, 0.5, 0.999])),
+             ("naive-dt", datetime.datetime(1970, 1, 1) + datetime.timedelta(seconds=ts))]
+    for mins in (0, 330, -480, 1, -1, 765, rng.randrange(-720, 721)):
+        tz = datetime.timezone(datetime.timedelta(minutes=mins))
+        forms.append((f"aware-dt{mins:+d}m", datetime.datetime.fromtimestamp(ts, tz)))
+    return forms
+
+
+def _gen(t, tm):
+    try:
+        g = t.generate(tm)
+        return (g.token, g.expire_time, g.start_time)
+    except Exception as e:  # noqa: BLE001
+        return (errname(e),)
+
+
+def scenarios(rng, rounds):
+    """yield (tag, input, observed, expected) for real-code checks that the line protocol does not carry:
+    every representation of an instant gives the RFC token of that instant, and objects sharing a key but not an algorithm
+    (all kept alive, generated in every order) each give their own RFC value."""
+    from passlib.totp import TOTP
+
+    for _ in range(rounds):
+        key = rng.randbytes(rng.randrange(1, 65))
+        digits = rng.randrange(6, 11)
+        period = rng.choice([1, 30, 60, rng.randrange(1, 3601)])
+        ts = rng.choice([rng.randrange(0, 1 << 33), rng.randrange(0, 86400), period * rng.randrange(1, 1 << 26), 59])
+        algs = ["sha1", "sha256", "sha512"]
+        rng.shuffle(algs)
+        alive = []
+        for alg in algs:
+            t = TOTP(key=key, format="raw", alg=alg, digits=digits, period=period)
+            want, _ = rfc_hotp(key, ts // period, alg, digits)
+            exp = (want, (ts // period + 1) * period, (ts // period) * period)
+            got = _gen(t, ts)
+            alive.append((t, alg, got))
+            yield ("same-key-other-alg", {"op": "shared-key", "key": key.hex(), "order": list(algs), "alg": alg, "digits": digits, "period": period, "time": ts}, got, exp)
+        # second pass over the still-living objects in reverse
+        for t, alg, _g in reversed(alive):
+            want, _ = rfc_hotp(key, ts // period, alg, digits)
+            exp = (want, (ts // period + 1) * period, (ts // period) * period)
+            yield ("same-key-other-alg-again", {"op": "shared-key", "key": key.hex(), "order": list(algs), "alg": alg, "digits": digits, "period": period, "time": ts, "pass": 2}, _gen(t, ts), exp)
+        t, alg, _g = alive[0]
+        want, _ = rfc_hotp(key, ts // period, alg, digits)
+        exp = (want, (ts // period + 1) * period, (ts // period) * period)
+        for tag, val in _time_forms(rng, ts):
+            yield ("time-aware-dt" if tag.startswith("aware") else "time-" + tag,
+                   {"op": "generate", "key": key.hex(), "alg": alg, "digits": digits, "period": period, "time": ts, "time_form": tag, "value": repr(val)}, _gen(t, val), exp)
+        del alive
 
 
 def correspond(ctx):
@@ -101,7 +154,10 @@ def correspond(ctx):
             for v in variants:
                 cps = ",".join(str(ord(c)) for c in v) or "-"
                 s_key.add(f"totp key {fmt} {cps}", lambda v=v, fmt=fmt: hx(pt._decode_bytes(v, fmt)), f"key-{fmt}")
-    return merge(s_tok, s_cnt, s_key)
+    o_sc = Oracle(ctx, "time-forms-and-shared-keys")
+    for tag, inp, got, exp in scenarios(rng, 150 if not ctx.thorough else 5000):
+        o_sc.check(tag, got == exp, inp, got, exp)
+    return merge(s_tok, s_cnt, s_key, o_sc)
 
 
 def search(ctx, broken, seeds):
@@ -111,6 +167,9 @@ def search(ctx, broken, seeds):
 
     warnings.simplefilter("ignore")
     rng = ctx.rng
+    for tag, inp, got, exp in scenarios(rng, 400 if not ctx.thorough else 5000):
+        if got != exp:
+            return {"input": inp, "observed": got, "expected": exp, "check": tag}
     for _ in range(20000 if not ctx.thorough else 300000):
         alg = rng.choice(["sha1", "sha256", "sha512"])
         key = rng.randbytes(rng.randrange(1, 65))
